@@ -26,7 +26,7 @@ def main():
     also = []
     if '--also' in sys.argv:
         also = sys.argv[sys.argv.index('--also') + 1].split(',')
-    wt = '/tmp/seed/' + prop
+    wt = os.environ.get('SEED_ROOT', '/tmp/seed') + '/' + prop
     dest = os.path.join(V, 'seeded', '%s-%s' % (prop, slug))
     os.makedirs(dest, exist_ok=True)
     rc, patch = sh(['git', '-C', wt, 'diff', '--', 'emmet'])
